@@ -320,7 +320,7 @@ func runCheck(repo, contracts string, args []string, tier string, timeout time.D
 	sort.Strings(fnNames)
 	ev.Coverage["obligations"] = total
 	ev.Coverage["discharged"] = discharged
-	ev.Coverage["checker_cmd"] = fmt.Sprintf("/verif/bin/bmcvc check --tier %s %s  (VC generator over go/ssa of /repo's working tree; solvers raced: z3-new 5.1.0, z3 4.8.12, cvc5 1.0.3; timeout %s per obligation)", tier, prop, timeout)
+	ev.Coverage["checker_cmd"] = fmt.Sprintf("/verif/bin/bmcvc check --tier %s %s  (VC generator over go/ssa of /repo's working tree; solvers raced: z3-new 5.1.0, z3 4.8.12, cvc5 1.0.3; budget %s of CPU time per solver and obligation, wall-clock limit fifteen times that)", tier, prop, timeout)
 	tb := append([]string{}, trusted...)
 	for _, u := range unmodelled {
 		tb = append(tb, "unmodelled callee (result and all memory havocked): "+u)
